@@ -155,8 +155,10 @@ pub fn gen_any<S: Dom, const N: usize>(t: &mut Tape) -> [S; N] {
 pub fn unit_n<S: Dom, const N: usize>(t: &mut Tape) -> [S; N] {
     let mut p = [0i64; N];
     let mut s = 0i64;
+    // few lanes: a wider parameter range, so that low-dimensional vectors are not mostly axis-aligned
+    let r0 = if N <= 4 { 6 } else { 2 };
     for i in 0..N - 1 {
-        p[i] = t.int(-2, 2);
+        p[i] = t.int(-r0, r0);
         s += p[i] * p[i];
     }
     let mut u = [S::zero(); N];
